@@ -2324,9 +2324,8 @@ func WriteBinaryBlocks(mainLabel uint64, lbls Set, op *OutputOp, bounds dvid.Bou
 				inBlock = true
 			} else {
 				hasBackground = true // true if any non-targeted label exists
-				if len(labelIndices) == len(lbls) {
-					break
-				}
+				// can't break once all target labels were seen because there could be multiple entries
+				// for a label in a block, e.g., after ReplaceLabels or a fast merge.
 			}
 		}
 		if inBlock {
